@@ -7,17 +7,17 @@ import subprocess
 V = '/verif'
 PY = '/venv/bin/python'
 T = {
-    'C01': ('exploration', 'Generated SEG-Y/NumPy sources are converted by the real writers over routes x valid settings x queue capacities while monitors compare read_volume() and every data-section cell bitwise with an independent per-cell ZFP image; held = no deviation on the executions produced (counts in evidence).',
+    'C01': ('exploration', 'Generated SEG-Y (IBM/IEEE/integer formats), ZGY (pyzgy writer) and NumPy sources are converted by the real writers (fresh and re-used converter objects) over routes x valid settings x queue capacities while monitors compare read_volume() and every data-section cell bitwise with an independent per-cell ZFP image; held = no deviation on the executions produced (counts in evidence).',
             'differential runtime monitor: value + byte oracle (per-cell ZFP image), route agreement, conformance checker', '3 C01'),
     'C02': ('exploration', 'Every public read path of the real reader is driven on fixtures and on files written from the specification by the harness (all layouts, rates, version conventions) with arguments stratified on residues mod 4 / mod blockshape, each result compared bitwise with the slice of an independent spec-only decode.',
             'runtime differential monitor against an independent decoder written from the file specification', '3 C02'),
-    'C03': ('exploration', 'A conformance checker (specification + generator truth, full independent decode of samples and all 89 header fields) observes every file every writer and writer composition returns; the version encoding is driven exhaustively over its 8.4M-value space through the real class; gates are exercised by writing under pinned library versions in child processes.',
+    'C03': ('exploration', 'A conformance checker (specification + generator truth, full independent decode of samples and all 89 header fields) observes every file every writer and writer composition returns, incl. ZGY-sourced files and every writer call made by the repository test suite (pytest plugin with postconditions on the writer entry points); the version encoding is driven exhaustively over its 8.4M-value space through the real class; gates are exercised by writing under pinned library versions in child processes.',
             'conformance monitor over written bytes; exhaustive enumeration through the real version class; pinned-version child processes', '3 C03'),
     'C04': ('exploration', 'For generated SEG-Y files x 4 detection modes every trace header accessor of the real reader is compared, for every trace and all 89 fields, with segyio on the source; NumPy-route header dicts likewise.',
             'differential runtime monitor vs segyio on the source over a trace-header content model', '3 C04'),
-    'C05': ('exploration', 'Axes, counts and flags reported by the reader/emulator for generated sources over the stated axis/interval/start classes are compared with segyio on the source, also after crop, re-block and export.',
+    'C05': ('exploration', 'Axes, counts and flags reported by the reader/emulator for generated SEG-Y (3D and 2D), NumPy (axes as arguments or header arrays) and ZGY (float sample axes) sources over the stated axis/interval/start classes are compared with segyio / pyzgy on the source, also after crop, re-block, export and windowed conversion.',
             'differential runtime monitor over stratified axis triples', '3 C05'),
-    'C06': ('exploration', 'Export through API and CLI of generated sources (regular, irregular, 2D; IBM/IEEE) is observed with segyio: geometry, byte-identical file headers, every trace header, samples vs the SGZ decode, trace order by watermark.',
+    'C06': ('exploration', 'Export through API and CLI of generated sources (regular, irregular, 2D; IBM/IEEE) is observed with segyio: geometry, byte-identical file headers, every trace header, samples vs the independent spec decode of the SGZ, trace order by watermark; binary headers with arbitrary content in the assigned fields; reads through the exporter object before the export.',
             'round-trip differential monitor (segyio on original vs export vs SgzReader)', '3 C06'),
     'C07': ('exploration', 'A counting file object and a fake blob client record every (offset,length) the real reader requests per call; an oracle derived from the independent block map decides needed blocks, double fetches, footer/header traffic and preload behaviour, cold and warm, both backends.',
             'I/O trace monitor with block-map oracle', '3 C07'),
@@ -37,15 +37,15 @@ T = {
             'runtime monitor over out-of-range argument classes', '3 C14'),
     'C15': ('exploration', 'Random histories over a pool of readers, an emulator and an xarray dataset on one file; every operation is compared with the same call on a fresh reader; cache hit/eviction counters prove warm paths ran.',
             'history monitor with a stateless (fresh reader) reference', '3 C15'),
-    'C16': ('exploration', 'Systematic schedule exploration of the REAL writer threads: Queue/Thread/file writes are yield points under a serialising scheduler; DFS over all schedules for 1-2 plane sets x capacities {1,2,16} x routes, PCT/random sampling beyond; per execution: deadlock freedom (logical), output = sequential output, write order, quiescence, conformance.',
+    'C16': ('exploration', 'Systematic schedule exploration of the REAL writer threads: Queue/Thread/file writes are yield points under a serialising scheduler; timed queue operations / condition waits time out whenever scheduled (virtual time); DFS over all schedules for 1-2 plane sets x capacities {1,2,16} x routes, PCT/random sampling beyond; per execution: deadlock freedom (logical), output = sequential output, write order, quiescence, conformance.',
             'controlled-scheduler systematic concurrency testing of the real threads (stateless DFS + random), output/write-log oracles', '3 C16'),
-    'C17': ('fault_enumeration', 'For every read method every position of its range-read sequence x fault kind {exception, short (half, len-1), empty} is injected on a fresh reader (local and blob), plus pairs and construction-time faults; blob completion orders are permuted with per-request gates; result must be an exception or the true result; native-boundary contracts watch the codec calls.',
+    'C17': ('fault_enumeration', 'For every read method every position of its range-read sequence x fault kind {exception, short (half, len-1), empty} is injected on a fresh reader (local and blob), plus pairs and construction-time faults; after a failed call the same call and the other accessors are repeated fault-free on the same reader; blob completion orders are permuted with per-request gates; result must be an exception or the true result; native-boundary contracts watch the codec calls.',
             'single/pair fault injection at the storage boundary + completion-order control + native contracts', '3 C17'),
-    'C18': ('fault_enumeration', 'The raw write log of a real conversion (recording open) yields crash states: every prefix of the write sequence, cuts inside writes, stratified byte lengths; each state is opened and every read method compared with the complete file (raise or identical).',
+    'C18': ('fault_enumeration', 'The raw write log of a real conversion (recording open) yields crash states: every prefix of the sequence of writes and file-length changes, cuts inside writes, stratified byte lengths; each state is opened and every read method compared with the complete file (raise or identical).',
             'crash-state materialisation from recorded write logs + differential read monitor', '3 C18'),
     'C19': ('exploration', 'The complete valid (bits_per_voxel, blockshape) set is enumerated through the real converters (3D and 2D) in isolated workers and near-miss settings are sampled; outcome classes rejected-cleanly / faithful / anything else.',
             'exhaustive enumeration of the valid configuration set through the real code with fidelity + conformance monitors; crash attribution by process isolation', '3 C19'),
-    'C20': ('exploration', 'Stored hash vs hashlib.sha1 over the source samples in trace order for 3D/irregular/2D x routes x settings; single-sample perturbations at stratified positions must change it; re-blocking keeps it.',
+    'C20': ('exploration', 'Stored hash vs hashlib.sha1 over the source samples in trace order for 3D/irregular/2D/ZGY sources (float and integer formats) x routes x settings x detection modes, block-aligned and unaligned shapes, windowed conversion, converter objects re-used across runs; single-sample perturbations at stratified positions must change it; re-blocking keeps it.',
             'differential runtime monitor vs independent SHA-1', '3 C20'),
 }
 NOTE = ('trusted base: zfpy/libzfp for one 4^d cell / one 4 KiB block, segyio as reader of generated SEG-Y, '
